@@ -22,10 +22,12 @@ Model: `JaqalModel/Model/Builder.lean`; declarative specification: `ValOK`, `Arg
   pairwise distinct; macro names are distinct from each other and from the native gates; every gate statement's
   definition (in the body and in macro bodies) is a native gate of the circuit, a macro of the circuit, or — only when
   no gate set is in force — an anonymous definition `p0…p{n-1}`. (`C14_names_distinct` holds for every input.)
-* `C14_sound_full` (a definition) is the same for ALL S-expressions. It is FALSE for the code as it is, for hand-made
-  S-expressions only: a `usepulses` child that comes after a gate statement replaces the definition the earlier
-  statement is bound to (`C07_memo_stale_after_usepulses` in `Props/C07.lean` is such an input; the parser cannot
-  produce it).
+* `C14_sound_full` (a definition) is the same for ALL S-expressions. Its clause "every definition is a native gate …"
+  is FALSE for the code as it is, for hand-made S-expressions only: a `usepulses` child that comes after a gate
+  statement replaces, in `native_gates`, the definition the earlier statement stays bound to
+  (`C14_stale_definition_handmade`: `usepulses a; register r[2]; X r[0]; usepulses b` is accepted and its `X r[0]` calls
+  module `a`'s `X`, which is not among the circuit's native gates; observed on the real builder). The parser cannot
+  produce such input, so `C14_sound_parser` is the theorem.
 -/
 namespace Jaqal.Builder
 open Jaqal
@@ -324,12 +326,32 @@ def gB : GateDef := { name := "X", tag := .native, params := [("q", .qubit), ("k
 example : (updateGates id (some [("X", gA)]) [gB] [("X", gA)]).lookup "X" = some gA := by decide
 example : (updateGates id Option.none [gA, gB] []).lookup "X" = some gB := by decide
 
+/-! ## The residual violation on hand-made input -/
+
+def cfgTwo : Config :=
+  { autoload := true, imports := fun m => if m = "a" then some [gA] else if m = "b" then some [gB] else Option.none }
+
+/-- `usepulses a; register r[2]; X r[0]; usepulses b` (the parser rejects a header statement after a body statement) -/
+def sxStale : Sx :=
+  .list [.str "circuit", .list [.str "usepulses", .str "a", .str "*"], .list [.str "register", .str "r", .int 2],
+    .list [.str "gate", .str "X", .list [.str "array_item", .str "r", .int 0]],
+    .list [.str "usepulses", .str "b", .str "*"]]
+
+/-- the definitions of the body's gate statements that are not native gates of the circuit -/
+def strayDefs (r : M Circuit) : Option (List GateDef) :=
+  r.toOption.map (fun c => (gateDefsOf c.body).filter (fun gd => !c.natives.contains gd))
+
+/-- The circuit is accepted, and its `X r[0]` is bound to module `a`'s `X`, which the second `usepulses` has replaced
+in the circuit's native gates: `C14_sound_full` fails on this (hand-made) input. -/
+theorem C14_stale_definition_handmade : strayDefs (parseBuild cfgTwo sxStale) = some [gA] := by decide
+
 end Jaqal.Builder
 
 #print axioms Jaqal.Builder.C14_sound
 #print axioms Jaqal.Builder.C14_sound_build
 #print axioms Jaqal.Builder.C14_names_distinct
 #print axioms Jaqal.Builder.C14_sound_parser
+#print axioms Jaqal.Builder.C14_stale_definition_handmade
 #print axioms Jaqal.Builder.C14_known_when_known_index
 #print axioms Jaqal.Builder.C14_checked_literal_index
 #print axioms Jaqal.Builder.C14_known_when_known_size
